@@ -24,6 +24,29 @@ type tcpAnchors struct {
 	fail     eng.EdgeSet // authErr != nil
 	conn     ssa.Value   // the client connection handed to the authenticator
 	auths    []*ssa.Function
+	// top is the per-connection function: the handler itself, or — when the handler is one phase of a split connection
+	// function — the function reached by climbing through single callers of the same package up to (not including) the
+	// one that reports the end of the connection. chain lists the levels from top down to the handler; each level's call
+	// leads to the next level (the handler's is the authenticator call) and has its own success / failure edges.
+	top   *ssa.Function
+	chain []tcpLevel
+}
+
+type tcpLevel struct {
+	fn         *ssa.Function
+	call       *ssa.Call
+	succ, fail eng.EdgeSet
+}
+
+// isPre: ins (in one of the chain functions) runs before the authentication result is known.
+func (a *tcpAnchors) isPreChain(ins ssa.Instruction) (inChain, pre bool) {
+	for _, l := range a.chain {
+		if ins.Parent() == l.fn {
+			reach := eng.ReachBlocks(l.fn.Blocks[0], eng.Union(l.succ, l.fail))
+			return true, reach[ins.Block()]
+		}
+	}
+	return false, false
 }
 
 func findTCP(c *Ctx, rule string) *tcpAnchors {
@@ -65,6 +88,33 @@ func findTCP(c *Ctx, rule string) *tcpAnchors {
 	if len(a.auths) == 0 {
 		c.Undecided(rule, "anchor:authenticator", c.P.IPos(a.authCall), "no authenticator implementation resolved")
 		return nil
+	}
+	// climb to the per-connection function
+	a.top = a.handler
+	a.chain = []tcpLevel{{a.handler, a.authCall, a.succ, a.fail}}
+	closed := methodQ("AddClosed")
+	for i := 0; i < 3; i++ {
+		var sites []eng.Site
+		for _, s := range c.P.CallSitesOf(a.top) {
+			if !c.P.IsTestSupport(s.Fn) {
+				sites = append(sites, s)
+			}
+		}
+		if len(sites) != 1 || eng.PkgPathOf(sites[0].Fn) != eng.PkgPathOf(a.top) || bodyHas(sites[0].Fn, closed) {
+			break
+		}
+		call, ok := sites[0].Ins.(*ssa.Call)
+		ei := errLikeResultIndex(a.top.Signature)
+		if !ok || ei < 0 {
+			break
+		}
+		up := sites[0].Fn
+		succ, fail := c.P.SuccessEdges(up, []ssa.CallInstruction{call}, ei)
+		if len(succ) == 0 {
+			break
+		}
+		a.chain = append([]tcpLevel{{up, call, succ, fail}}, a.chain...)
+		a.top = up
 	}
 	return a
 }
@@ -109,14 +159,20 @@ func ruleSilent(c *Ctx, a *tcpAnchors) {
 	isConn := func(v ssa.Value) bool { return a.sameConn(c, v) }
 	drain := drainQ(c, isConn)
 	n := 0
-	for _, cl := range eng.Calls(h) {
-		if ssa.Instruction(a.authCall) == cl.(ssa.Instruction) {
-			continue
+	var preCalls []ssa.CallInstruction
+	for _, l := range a.chain {
+		for _, cl := range eng.Calls(l.fn) {
+			if ssa.Instruction(l.call) == cl.(ssa.Instruction) {
+				continue
+			}
+			if _, isPre := a.isPreChain(cl); isPre {
+				preCalls = append(preCalls, cl)
+			}
 		}
+	}
+	_ = pre
+	for _, cl := range preCalls {
 		e, why := classifyEffect(c, cl)
-		if !pre[cl.Block()] {
-			continue
-		}
 		// pre-auth instruction (positioned before the result is known)
 		n++
 		key := short(h) + ":pre-auth:" + eng.CalleeName(cl.Common())
